@@ -13,8 +13,13 @@ from mc.checks.common import *
 ENGINE = 'E1 product'
 
 
+KSUB = [['angle'], ['dihedral'], ['improper'], ['bond', 'improper'], ['angle', 'dihedral'], ['bond', 'dihedral', 'improper']]
+
+
 def variants():
-    return [(tables, xf, dup) for tables in (True, False) for xf in (False, True) for dup in (False, True)]
+    """(tables, extra columns, duplicate term, term kinds present)"""
+    return [(tables, xf, dup, KINDS) for tables in (True, False) for xf in (False, True) for dup in (False, True)] + \
+           [(tables, False, False, ks) for tables in (True, False) for ks in KSUB]
 
 
 def plan(tier, seed):
@@ -26,9 +31,9 @@ def plan(tier, seed):
                 scs.append(dict(n=n, v=vi, S=list(S)))
             scs.append(dict(n=n, v=vi, pop=True))
     return dict(scenarios=scs, exhaustive=True, chunk=40,
-                menus=dict(n_atoms=list(range(1, N + 1)), variants=['tables=%s extra=%s dup=%s' % v for v in variants()],
+                menus=dict(n_atoms=list(range(1, N + 1)), variants=['tables=%s extra=%s dup=%s kinds=%s' % v for v in variants()],
                            containers=['list', 'tuple', 'ndarray'], orderings='all permutations for |S|<=3, else sorted/reversed/rotated',
-                           pop=['pop()', 'pop(-1)', 'pop(i) for every i']),
+                           pop=['pop()', 'pop(i) for every i in -n..n-1']),
                 bounds=dict(max_atoms=N),
                 rule='one scenario per (structure, index subset); every listing order x container inside; non-trivial = the deletion removes at least one term and keeps at least one atom',
                 assumptions=['structures are chains of <= %d atoms with bonds, angles, dihedrals, one improper' % N,
@@ -57,17 +62,17 @@ def check_after(a, ref, sc, what, out):
 
 
 def run(sc, ctx):
-    tables, xf, dup = variants()[sc['v']]
-    base = mk(sc['n'], tables=tables, xf=xf, dup=dup)
+    tables, xf, dup, kinds = variants()[sc['v']]
+    base = mk(sc['n'], tables=tables, xf=xf, dup=dup, kinds=kinds)
     out = dict(evals=0, compared=0, violations=[], outcomes={}, hashes=set(), nontrivial=0)
     if sc.get('pop'):
         n = sc['n']
-        for arg in [None, -1] + list(range(n)):
+        for arg in [None] + list(range(-n, n)):
             a = base.copy(); ref = RefStructure.of(base)
             what = 'pop()' if arg is None else 'pop(%d)' % arg
             _, err = call(a.pop) if arg is None else call(a.pop, arg)
             out['evals'] += 1; out['compared'] += 1
-            ref.delete([n - 1 if arg in (None, -1) else arg])
+            ref.delete([n - 1 if arg is None else arg % n])
             out['hashes'].add(h64(('pop', sc['n'], sc['v'], arg)))
             if err:
                 out['violations'].append(viol('delete-exact', 'pop-exc:' + exc_sig(err), '%s raised %r' % (what, err[0]), sc, tb=err[1]))
